@@ -49,6 +49,12 @@ struct ByteTrigger {
     std::string label;
 };
 
+// one async_read_some of the client: lifetime and how it ended (C12)
+struct ReadRec {
+    int conn = -1; ns_t t_start = 0, t_end = 0; uint64_t seq_start = 0, seq_end = 0;
+    enum End { pending, data, slot_cancel, error, closed } end = pending; size_t n = 0;
+};
+
 struct WriteFault {             // applies to the nth write_some from now on this connection
     int nth = 0;                // 0 = next
     int deliver_permille = 0;   // fraction of the accepted bytes that still reaches the broker
@@ -73,12 +79,15 @@ struct Conn {
     const char* close_cause = "";    // who ended it first: "client", "broker_fin", "broker_rst", "net_rst", "write_fault", "blackhole_heal"
     // peer / network
     bool dead = false;               // RST seen by the client side: ops fail with dead_ec
+    ns_t t_dead = 0; uint64_t seq_dead = 0;
     error_code dead_ec;
     bool fin_arrived = false;        // broker's FIN arrived at the client (reads drain then EOF)
     bool broker_closed = false;      // broker side no longer sends/receives
+    ns_t t_broker_closed = 0;
     bool blackhole = false;
     bool severed = false;            // a reset was injected on the path: bytes sent from now on go nowhere (in either direction)
-    bool fault_injected = false;     // any injected transport fault touched this connection
+    bool fault_injected = false;     // any injected fault (transport or broker behaviour) touched this connection
+    bool transport_fault = false;    // an injected transport-level fault (reset, eof, black hole, write error, cut)
     std::vector<std::string> fault_log;
 
     // client -> broker
@@ -96,6 +105,8 @@ struct Conn {
     Pending<void(error_code)>::ptr connect_op;
     Pending<void(error_code, std::size_t)>::ptr read_op;
     std::vector<boost::asio::mutable_buffer> read_bufs;
+    ns_t read_t_start = 0; uint64_t read_seq_start = 0;
+    ns_t t_last_consumed = 0;
     size_t read_cap = 0;
     Pending<void(error_code, std::size_t)>::ptr write_op;
     uint64_t write_event = 0;
@@ -105,6 +116,7 @@ struct Conn {
     std::vector<WriteFault> write_faults;
     int write_calls = 0;
     int read_calls = 0;
+    int cur_read = -1;               // index into Network::reads
     Rng chunk_rng, delay_rng;
 };
 
@@ -145,6 +157,7 @@ public:
     std::vector<std::unique_ptr<Conn>> conns;
     std::vector<WriteRec> writes;
     std::vector<GroupRec> groups;
+    std::vector<ReadRec> reads;
     Conn* conn(int id) { return id >= 0 && id < (int)conns.size() ? conns[id].get() : nullptr; }
 
     // ---- client side (called by the stream variants)
@@ -179,6 +192,8 @@ private:
     void check_triggers(Conn& c, Dir d);
     size_t cut_at_trigger(Conn& c, Dir d, size_t off, size_t len);
     void fail_pending(Conn& c, error_code ec);
+    void end_read(Conn& c, ReadRec::End how, size_t n);
+    void mark_dead(Conn& c, error_code ec);
     void apply(Conn& c, const ByteTrigger& t);
     ns_t latency(Conn& c);
 };
